@@ -49,6 +49,7 @@ class Ctx(object):
         self._solver.set("timeout", timeout_ms)
         self._solver.add(*self.assumptions)
         self._fresh = 0
+        self._known = {}
 
     # -- solver helpers -------------------------------------------------
     def check(self, *extra):
@@ -99,6 +100,7 @@ class Ctx(object):
         self.decisions = []
         self.notes = []
         self._run_fresh = 0
+        self._known = {}
 
     def run_fresh(self, prefix, sort="real"):
         """fresh variable whose name is deterministic per position within one run (stable across re-executions)"""
@@ -112,6 +114,15 @@ class Ctx(object):
             return True
         if z3.is_false(cond):
             return False
+        # a condition already decided on this path (structurally the same term: z3 hash-conses) keeps its answer without a new
+        # decision point - repeated evaluations of the same code (history obligations) would otherwise pay a solver proof per repeat
+        k = self._known.get(cond.get_id())
+        if k is not None:
+            return k[1]
+        if z3.is_not(cond):
+            k = self._known.get(cond.arg(0).get_id())
+            if k is not None:
+                return not k[1]
         if self.pos < len(self.prefix):
             d = self.prefix[self.pos]
         else:
@@ -128,6 +139,7 @@ class Ctx(object):
         self.pos += 1
         self.decisions.append(d)
         self.pc.append(cond if d else z3.Not(cond))
+        self._known[cond.get_id()] = (cond, d)
         return d
 
     def iter_paths(self, fn):
